@@ -1,4 +1,5 @@
 """C10 - equality, hashing and ordering are coherent."""
+from ..rules import immut
 from ..rules.cmp import cmp_rules
 
 META = {}
@@ -13,4 +14,41 @@ def run(ctx):
         "applies its own operator with self on the left. Reflexivity, symmetry and transitivity follow from comparing one "
         "tuple key with the built-in tuple order.")
     cmp_rules(ctx)
+    hash_memo(ctx)
+    immut.im11(ctx)     # the memoised hash of one URL can never end up in another URL's cache
     ctx.extra["exhaustive"] = True
+
+
+def hash_memo(ctx):
+    """The hash memo is written only by __hash__, for self, and holds the value just computed from the key tuple."""
+    from ..interp import analyze
+    from ..report import where
+    from ..terms import show
+    m = ctx.model
+    rule = "CMP-MEMO"
+    ctx.rule(rule, floor=1, what="the memoised hash is the hash of the object's own key, stored only by __hash__")
+    for fi in m.all_funcs():
+        if fi.module != "_url":
+            continue
+        r = analyze(m, fi)
+        seen = set()
+        for e in r.by_kind("store_sub"):
+            if e.index != ("const", "hash") or id(e.node) in seen:
+                continue
+            seen.add(id(e.node))
+            ctx.instance(rule)
+            base = e.base
+            while base[0] == "mut":
+                base = base[1]
+            ok = fi.qual == "_url.URL.__hash__" and base == ("attr", ("param", "self"), "_cache") and \
+                e.value[0] == "call" and e.value[1] == ("builtin", "hash")
+            ctx.ob(rule, fi.qual, f"{show(base)}['hash'] = {show(e.value)[:50]}", ok,
+                   "the hash memo is written outside __hash__, for another object, or with something other than hash(key)",
+                   where(fi, e.node), sample="self._cache['hash'] = hash(key tuple)")
+    h = m.func("_url.URL.__hash__")
+    rh = analyze(m, h)
+    for s, v, node in rh.returns:
+        ctx.instance(rule)
+        ok = (v[0] == "call" and v[1] == ("builtin", "hash")) or (v[0] == "call" and v[1][0] == "attr" and v[1][2] == "get" and v[2] and v[2][0] == ("const", "hash"))
+        ctx.ob(rule, h.qual, f"return {show(v)[:60]}", ok, "__hash__ returns something other than hash(key) or its memo", where(h, node),
+               sample="hash(key) or the memo")
